@@ -24,14 +24,18 @@ def descLine (p : UInt8) (id desc : Bytes) : Bytes :=
 def ambigFilter (gap ambiguous thresh : UInt8) (l q : UInt8) : UInt8 :=
   if l == gap || q ≥ thresh then l else ambiguous
 
+/-- `wOk && i < s.Len()-1 && i%w == w-1` (width 0: integer divide by zero) -/
+def breakAfter (w : Option Nat) (len i : Nat) : Except Panic Bool :=
+  match w with
+  | none => pure false
+  | some w =>
+    if i + 1 < len then (if w == 0 then throw .divideByZero else pure (i % w == w - 1)) else pure false
+
 /-- the letter loop of verb `a`: `for i, l := range buf { "%c"; if wOk && i < s.Len()-1 && i%w == w-1 { "\n" } }` -/
 def wrapLetters (w : Option Nat) (len : Nat) : Nat → Bytes → Except Panic Bytes
   | _, [] => pure []
   | i, l :: ls => do
-    let nl ← match w with
-      | none => pure false
-      | some w =>
-        if i + 1 < len then (if w == 0 then throw .divideByZero else pure (i % w == w - 1)) else pure false
+    let nl ← breakAfter w len i
     let rest ← wrapLetters w len (i + 1) ls
     pure (fmtC l ++ (if nl then [10] else []) ++ rest)
 
